@@ -669,6 +669,23 @@ def endCheck (m : MState) : Option Clause := first (Slot.all.map (endSlotClause 
 def withWindow (d : MSlot) (parked : Bool) (id : Nat) : MSlot :=
   { d with window := if parked then d.window ++ [id] else d.window }
 
+/-- a call for `key` was answered by the server: whatever invalidated the cache before, it is refilled now -/
+def MSlot.fetched (d : MSlot) (key : Key) : MSlot :=
+  { d with invalidated := fun k => if k = key then false else d.invalidated k,
+           suspect := fun k => if k = key then none else d.suspect k }
+
+/-- a call for `key` whose response is held has started -/
+def MSlot.started (d : MSlot) (key : Key) : MSlot :=
+  { d with starts := fun k => if k = key then d.maxHandled key else d.starts k }
+
+/-- the held call for `key` returned version `v` and filled the cache: a notification covering the key that was
+handled while the call was in flight makes what it stores suspect -/
+def MSlot.filled (d : MSlot) (key : Key) (v : Nat) : MSlot :=
+  let susp := d.maxHandled key > d.starts key && v < d.maxHandled key
+  { d with starts := fun k => if k = key then 0 else d.starts k,
+           invalidated := fun k => if k = key then false else d.invalidated k,
+           suspect := fun k => if k = key then (if susp then some v else none) else d.suspect k }
+
 /-- the bookkeeping after a record -/
 def monNext (m : MState) (r : Rec) : MState :=
   match r.op, r.obs with
@@ -734,21 +751,10 @@ def monNext (m : MState) (r : Rec) : MState :=
   | .list c key mode, obs =>
     let d := m.slots c
     (match obs with
-     | .ret _ hit =>
-       if hit then m else
-       m.setSlot c { d with invalidated := fun k => if k = key then false else d.invalidated k,
-                            suspect := fun k => if k = key then none else d.suspect k }
-     | .pre | .held _ =>
-       if mode != .n then m.setSlot c { d with starts := fun k => if k = key then d.maxHandled key else d.starts k } else m
+     | .ret _ hit => if hit then m else m.setSlot c (d.fetched key)
+     | .pre | .held _ => if mode != .n then m.setSlot c (d.started key) else m
      | _ => m)
-  | .fill c key, .ret v _ =>
-    let d := m.slots c
-    let startMax := d.starts key
-    -- a notification covering the key was handled while the call was in flight: what it stores is suspect
-    let susp := d.maxHandled key > startMax && v < d.maxHandled key
-    m.setSlot c { d with starts := fun k => if k = key then 0 else d.starts k,
-                         invalidated := fun k => if k = key then false else d.invalidated k,
-                         suspect := fun k => if k = key then (if susp then some v else none) else d.suspect k }
+  | .fill c key, .ret v _ => m.setSlot c ((m.slots c).filled key v)
   | .tables, .tables tb => tbNext m tb
   | _, _ => m
 
